@@ -72,7 +72,7 @@ Theorem C31_block_comment_normalised_idempotent : forall k ls,
   blank (last ls []) = false ->
   Forall (fun l => starts_close (trim_left l) = false) (removelast ls) ->
   emit_norm k (emit_norm k ls) = emit_norm k ls.
-Proof. intros k ls H1 H2. apply emit_norm_idempotent_lemma. split; assumption. Qed.
+Proof. exact emit_norm_idempotent_lemma. Qed.
 Print Assumptions C31_block_comment_normalised_idempotent.
 
 (* non-vacuity: slash star / 4 spaces a / 2 spaces, tab (blank) / 6 spaces b / 3 spaces star slash,
@@ -81,7 +81,7 @@ Print Assumptions C31_block_comment_normalised_idempotent.
 Example C31_block_comment_nonvacuous :
   let c := [[47; 42]; [32; 32; 32; 32; 97]; [32; 32; 9]; [32; 32; 32; 32; 32; 32; 98]; [32; 32; 32; 42; 47]] in
   emit_verbatim 2 c = [[47; 42]; [32; 32; 32; 97]; [32; 32; 32; 32; 32; 98]; [32; 32; 42; 47]]
-  /\ emit_norm 2 c = [[47; 42]; [32; 32; 32; 32; 32; 32; 97]; []; [32; 32; 32; 32; 32; 32; 32; 32; 98]; [32; 32; 42; 47]]
+  /\ emit_norm 2 c = [[47; 42]; [32; 32; 32; 32; 32; 97]; []; [32; 32; 32; 32; 32; 32; 32; 98]; [32; 32; 42; 47]]
   /\ blank (last c []) = false
   /\ Forall (fun l => starts_close (trim_left l) = false) (removelast c).
 Proof. vm_compute. repeat split; repeat constructor. Qed.
